@@ -80,7 +80,7 @@ def vopaque(text):
     return Val("opaque", text=text)
 
 
-VARIANT_INDEX = {"Ok": 0, "Err": 1, "None": 0, "Some": 1, "Continue": 0, "Break": 1, "Ready": 0, "Pending": 1}
+VARIANT_INDEX = {"Ok": 0, "Err": 1, "None": 0, "Some": 1, "Continue": 0, "Break": 1, "Ready": 0, "Pending": 1, "Borrowed": 0, "Owned": 1}
 
 
 class Panic:
